@@ -220,6 +220,22 @@ Section Ext.
     | r => of_xres r
     end.
 
+  (* Reader::merge_xref_stream, see Loader.merge_xref_stream *)
+  Definition merge_xref_stream_x (buf : bytes) (x : xref) (start : option obj) : lstep xref :=
+    match start with
+    | Some (OInt q) =>
+      if (q <? 0)%Z || (Loader.blen buf <? Z.to_N q) then SErr LeStreamStart
+      else
+        match xref_and_trailer_x buf (Z.to_N q) with
+        | SOk (sx, _) => SOk (xref_merge x sx)
+        | SErr e => SErr e
+        | SPanic => SPanic
+        | SOut => SOut
+        | SUnm => SUnm
+        end
+    | _ => SOk x
+    end.
+
   Fixpoint prev_loop_x (fuel : nat) (buf : bytes) (x : xref) (t : dict) (prev : option obj) (seen : list Z)
     : lstep (xref * dict) :=
     match prev with
@@ -231,23 +247,22 @@ Section Ext.
         | S f =>
           if (p <? 0)%Z || (Loader.blen buf <? Z.to_N p) then SErr LePrevStart
           else
-            match xref_and_trailer_x buf (Z.to_N p) with
-            | SOk (px, pt) =>
-              let x1 := xref_merge x px in
-              let stm := dict_get t K_XRefStm in
+            match merge_xref_stream_x buf x (dict_get t K_XRefStm) with
+            | SOk x1 =>
               let t1 := dict_swap_remove t K_XRefStm in
-              match stm with
-              | Some (OInt q) =>
-                if (q <? 0)%Z || (Loader.blen buf <? Z.to_N q) then SErr LeStreamStart
-                else
-                  match xref_and_trailer_x buf (Z.to_N q) with
-                  | SOk (sx, _) => prev_loop_x f buf (xref_merge x1 sx) t1 (dict_get pt K_Prev) (p :: seen)
-                  | SErr e => SErr e
-                  | SPanic => SPanic
-                  | SOut => SOut
-                  | SUnm => SUnm
-                  end
-              | _ => prev_loop_x f buf x1 t1 (dict_get pt K_Prev) (p :: seen)
+              match xref_and_trailer_x buf (Z.to_N p) with
+              | SOk (px, pt) =>
+                match merge_xref_stream_x buf px (dict_get pt K_XRefStm) with
+                | SOk px1 => prev_loop_x f buf (xref_merge x1 px1) t1 (dict_get pt K_Prev) (p :: seen)
+                | SErr e => SErr e
+                | SPanic => SPanic
+                | SOut => SOut
+                | SUnm => SUnm
+                end
+              | SErr e => SErr e
+              | SPanic => SPanic
+              | SOut => SOut
+              | SUnm => SUnm
               end
             | SErr e => SErr e
             | SPanic => SPanic
